@@ -40,6 +40,8 @@ func runC17(p *core.Program, r *core.Report) {
 	c17R10(p, r)
 	c17R11(p, r)
 	c17R12(p, r)
+	c17R13(p, r)
+	c17R14(p, r)
 }
 
 // c17R8: on-demand generation of same-package dependencies.
@@ -1041,4 +1043,174 @@ func fromMethodQuery(info *types.Info, body ast.Node, e ast.Expr, depth int) boo
 		return !found
 	})
 	return found
+}
+
+// c17R13: "tagged/untagged dependencies" at any nesting depth get their methods. The framework runs the callbacks of
+// Context.Defer in ONE pass over the list as it stands when the pass begins (`for _, fn := range defers`): a callback
+// registered while a deferred callback is running is never called. A generator may therefore not reach Context.Defer
+// from inside a deferred callback - which is what happens when the dependencies of a type are generated through Defer
+// (the dependency's own dependencies are then registered during the pass and dropped). Decided over the generator
+// packages: from the function literal handed to Defer no call of Context.Defer is reachable - unless the framework's
+// pass re-reads the list (an index loop up to len, checked on the current source).
+func c17R13(p *core.Program, r *core.Report) {
+	const rule = "R13"
+	r.Floor(rule, 1)
+	// does the framework's pass pick up late registrations?
+	rereads := false
+	var passAt token.Pos
+	for _, f := range p.Funcs() {
+		if f.Body == nil || core.RelPkg(f.Pkg.PkgPath) != "pkg/gengo" {
+			continue
+		}
+		info := f.Info()
+		ast.Inspect(f.Body, func(n ast.Node) bool {
+			switch x := n.(type) {
+			case *ast.RangeStmt:
+				if isRole(p, core.FieldOf(info, x.X), "ctx.callbacks") {
+					passAt = x.Pos()
+				}
+			case *ast.ForStmt:
+				if x.Cond != nil {
+					ast.Inspect(x.Cond, func(m ast.Node) bool {
+						if c, ok := m.(*ast.CallExpr); ok && core.CalleeName(info, c) == "builtin.len" && len(c.Args) == 1 && isRole(p, core.FieldOf(info, c.Args[0]), "ctx.callbacks") {
+							rereads = true
+							passAt = x.Pos()
+						}
+						return true
+					})
+				}
+			}
+			return true
+		})
+	}
+	if !passAt.IsValid() {
+		r.Anchor(rule, "the loop of pkg/gengo over the deferred callbacks of a context")
+		return
+	}
+	deferName := "(" + core.G("pkg/gengo.Context") + ").Defer"
+	n := 0
+	for _, cs := range callersOf(p, deferName) {
+		if !strings.HasPrefix(core.RelPkg(cs.In.Pkg.PkgPath), "devpkg/") || len(cs.Call.Args) != 1 {
+			continue
+		}
+		n++
+		construct := "no Defer from inside a deferred callback: " + core.ExprStr(cs.Call.Fun) + "(…)"
+		if rereads {
+			r.OK(rule, cs.In, construct, cs.Call.Pos(), "the framework's pass re-reads the length of the list on every step")
+			continue
+		}
+		var root *core.Func
+		switch a := ast.Unparen(cs.Call.Args[0]).(type) {
+		case *ast.FuncLit:
+			root = p.FuncOfLit(a)
+		default:
+			if fn, ok := cs.In.Info().ObjectOf(identOf(a)).(*types.Func); ok {
+				root = p.FuncOfObj(fn)
+			}
+		}
+		if root == nil {
+			r.Unknown(rule, cs.In, construct, cs.Call.Pos(), "the callback is not a function of the module")
+			continue
+		}
+		bad := ""
+		for f := range reachableFrom(p, root) {
+			if f.Body == nil {
+				continue
+			}
+			for _, c := range core.Calls(f.Body, false) {
+				if core.CalleeName(f.Info(), c) == deferName {
+					bad = f.QName() + " at " + p.Pos(c.Pos())
+				}
+			}
+		}
+		r.Check(bad == "", rule, cs.In, construct, cs.Call.Pos(), "nothing the callback reaches registers another callback",
+			"the deferred callback reaches Context.Defer again ("+bad+"): the framework runs the callbacks in one pass over the list as it stood at the start, so what is registered during the pass is never run - with dependencies generated this way, the dependencies of a dependency get no methods and the generated file does not compile")
+	}
+	if n == 0 {
+		r.OK(rule, &core.Func{Pkg: p.Pkg("devpkg/deepcopygen"), Name: "<generators>"}, "no generator defers the generation of dependencies", 0, "Context.Defer is not called by a generator package")
+	}
+}
+
+// c17R14: "DeepCopy of nil is nil" for the interface variant too. A method whose result is an interface must not
+// return a pointer-typed expression that can be nil: a nil *T in an interface is not nil. Decided on the constant
+// template that declares DeepCopyObject: every return is the literal nil, or a variable returned inside an `if` whose
+// condition is `<that variable> != nil`.
+func c17R14(p *core.Program, r *core.Report) {
+	const rule = "R14"
+	r.Floor(rule, 1)
+	n := 0
+	for _, s := range templateSites(p) {
+		if core.RelPkg(s.F.Pkg.PkgPath) != "devpkg/deepcopygen" || !strings.Contains(s.Format, "DeepCopyObject()") {
+			continue
+		}
+		file, _, err := parseSkeleton(skeleton(s))
+		if err != nil {
+			continue // T2 reports it
+		}
+		for _, d := range file.Decls {
+			fd, ok := d.(*ast.FuncDecl)
+			if !ok || fd.Name.Name != "DeepCopyObject" || fd.Body == nil {
+				continue
+			}
+			n++
+			bad := ""
+			var walk func(n ast.Node, guarded map[string]bool)
+			walk = func(n ast.Node, guarded map[string]bool) {
+				switch x := n.(type) {
+				case nil:
+					return
+				case *ast.IfStmt:
+					g2 := map[string]bool{}
+					for k := range guarded {
+						g2[k] = true
+					}
+					for _, a := range cfgxAtoms(x.Cond, true) {
+						if b, isB := ast.Unparen(a.Cond).(*ast.BinaryExpr); isB && ((b.Op == token.NEQ) == a.Val) && (b.Op == token.NEQ || b.Op == token.EQL) {
+							if id, isID := ast.Unparen(b.X).(*ast.Ident); isID {
+								if nl, isNil := ast.Unparen(b.Y).(*ast.Ident); isNil && nl.Name == "nil" {
+									g2[id.Name] = true
+								}
+							}
+						}
+					}
+					walk(x.Body, g2)
+					if x.Else != nil {
+						walk(x.Else, guarded)
+					}
+				case *ast.BlockStmt:
+					for _, st := range x.List {
+						walk(st, guarded)
+					}
+				case *ast.ReturnStmt:
+					if len(x.Results) != 1 {
+						return
+					}
+					switch e := ast.Unparen(x.Results[0]).(type) {
+					case *ast.Ident:
+						if e.Name != "nil" && !guarded[e.Name] {
+							bad = "return " + e.Name
+						}
+					default:
+						bad = "return <expression>"
+					}
+				case *ast.ForStmt:
+					walk(x.Body, guarded)
+				case *ast.RangeStmt:
+					walk(x.Body, guarded)
+				case *ast.SwitchStmt:
+					walk(x.Body, map[string]bool{})
+				case *ast.CaseClause:
+					for _, st := range x.Body {
+						walk(st, guarded)
+					}
+				}
+			}
+			walk(fd.Body, map[string]bool{})
+			r.Check(bad == "", rule, s.F, "DeepCopyObject of a nil receiver is the nil interface", s.Call.Pos(), "every return is nil or a variable under `!= nil`",
+				"the emitted DeepCopyObject can hand a nil pointer to its interface result (`"+bad+"`): for a nil receiver the result is a non-nil interface holding a nil *T, so `x.DeepCopyObject() == nil` is false")
+		}
+	}
+	if n == 0 {
+		r.Anchor(rule, "the constant template of devpkg/deepcopygen that declares DeepCopyObject")
+	}
 }
